@@ -15,11 +15,11 @@ LEVEL = "fault_enumeration"
 RULE = ("fault space = truncation points of the writer: frame sizes 2*nc for nc in {2,5,97,277,385} x whole frames in {1,2,22,1000} x every "
         "trailing byte count 0..frame-1 (all of them for nc<=97 in quick, 40 stratified incl. frame/2 +-1 for 277/385; all in thorough) x "
         "metadata claiming fewer / equal / more samples / still-acquiring (online reader) x integer and fractional sampling rates x Reader "
-        "and OnlineReader, plus compressed streams shorter than announced. Non-trivial: trailing bytes > 0 or metadata claim != content; "
+        "and OnlineReader, plus compressed streams shorter than announced, plus readers instantiated with open=False whose file grows / shrinks before open(). Non-trivial: trailing bytes > 0 or metadata claim != content; "
         "distinct = distinct (nc, frames, trailing, claim, fs, reader class)")
 ASSUMPTIONS = ["truncation = a prefix of the byte stream the writer would have produced", "at least one complete frame is present",
                "still-acquiring metadata (no fileTimeSecs / fileSizeBytes yet) is only given to OnlineReader, the class meant for it"]
-REQUIRED = {"constructions": 400, "prefix_values_checked": 400, "half_frame_or_more": 100, "beyond_end_reads": 400, "cbin_short": 2}
+REQUIRED = {"constructions": 400, "prefix_values_checked": 400, "half_frame_or_more": 100, "beyond_end_reads": 400, "cbin_short": 2, "deferred_opens": 60}
 CASE_TIMEOUT = 400.0
 NCS = [2, 5, 97, 277, 385]
 FRAMES = [1, 2, 22, 1000]
@@ -47,6 +47,8 @@ def gen_cases(seed, tier):
                     cases.append({"cls": "truncate", "nc": nc, "frames": fr, "trailing": sub, "seed": seed, "_w": len(sub) * (1 + nc / 100) / 60})
     for i in range(6 if tier == "quick" else 40):
         cases.append({"cls": "cbin-short", "seed": seed * 100 + i, "_w": 2})
+    for i in range(12 if tier == "quick" else 120):
+        cases.append({"cls": "deferred", "seed": seed * 100 + i, "_w": 1})
     return cases
 
 
@@ -130,6 +132,43 @@ def run_case(case):
                     if trailing > 0 or claim != "equal":
                         nt += 1
         res.sig = f"truncate-{nc}-{frames}-{case['trailing'][0]}"
+    elif case["cls"] == "deferred":
+        # the reader is instantiated with open=False, the file keeps changing (recording / copy in progress), then it is opened:
+        # "opening" is judged against the bytes present when open() runs
+        for j in range(12):
+            nc = int(rng.choice([2, 5, 97, 385]))
+            frame = 2 * nc
+            kind = "3B2"
+            claim_ns = int(rng.integers(2, 60))
+            a_frames = claim_ns if rng.random() < 0.5 else int(rng.integers(1, 80))         # consistent or not when instantiated
+            a_trail = 0 if rng.random() < 0.5 else int(rng.integers(0, frame))
+            b_frames = int(rng.integers(1, 80))
+            b_trail = 0 if rng.random() < 0.4 else int(rng.integers(0, frame))
+            rec = G.make(rng, kind=kind, sites=G.draw_sites(rng, kind, nc - 1, "dense"), ns=81, claim_ns=claim_ns, content="random")
+            by = rec.raw.tobytes()
+            b = d / "t.ap.bin"
+            b.write_bytes(by[: a_frames * frame + a_trail])
+            b.with_suffix(".meta").write_text(rec.meta_text)
+            how = str(rng.choice(["open", "with"]))
+            label = (f"deferred open ({how}) nc={nc} claim={claim_ns} at instantiation {a_frames} frames+{a_trail}B, at open {b_frames} frames+{b_trail}B")
+            keyp = "deferred-open:" + ("grown" if (b_frames, b_trail) > (a_frames, a_trail) else "shrunk" if (b_frames, b_trail) < (a_frames, a_trail) else "same")
+            try:
+                sr = spikeglx.Reader(b, open=False, sort=False, ignore_warnings=bool(rng.integers(0, 2)))
+                b.write_bytes(by[: b_frames * frame + b_trail])
+                if how == "open":
+                    sr.open()
+                else:
+                    sr.__enter__()
+                res.count("constructions")
+                res.count("deferred_opens")
+            except Exception as e:
+                res.count("constructions")
+                res.exception(keyp + ":open-exception", e, label)
+                continue
+            judge(res, sr, rec.raw, rec.s2v, b_frames, label, keyp)
+            sr.close()
+            nt += 1
+        res.sig = f"deferred-{case['seed']}"
     else:
         # compressed stream shorter than the metadata announces
         kind = str(rng.choice(["3B2", "NP2.1"]))
